@@ -28,7 +28,7 @@ RULE = (
     "accessor was scribbled on and the same quantity was read again later. distinct = distinct operation sequence."
 )
 ASSUMPTIONS = [
-    "with copy=False the caller's array is owned by the state afterwards (documented opt-in); the harness never touches it again",
+    "with copy=False the CURRENT value may alias the caller's array (documented opt-in): the harness leaves such a buffer alone until the value has been committed, then overwrites it - a committed batch must not change - and re-sets the current value",
     "dictionaries passed to from_dict/update_from_dict are user input, not accessor output: they are built fresh and never touched again",
     "batches of one machine have one fixed particle count (as in the sampler), so get_history(key) can stack them",
 ]
@@ -116,13 +116,28 @@ def exec_sm(case):
             return v % 10007
         return (v % 2003) / 17.0 - 30.0
 
+    aliased = {}  # key -> caller's array handed over with copy=False (the CURRENT value may alias it; committed history may not)
+
     def do_set(key, v, copy_flag):
         val = mk(key, v)
         model_val = copy.deepcopy(val)
         lib_call(sm.set_current, key, val, copy=copy_flag, what="set_current")
         cur[key] = model_val
+        aliased.pop(key, None)
         if copy_flag and isinstance(val, np.ndarray):
             scribble(val, [0])  # the caller keeps ownership of its array and changes it
+        elif not copy_flag and isinstance(val, np.ndarray):
+            aliased[key] = val
+
+    def after_commit():
+        """The caller reuses the buffers it handed over with copy=False. That may change the CURRENT value (documented), never
+        a committed batch; the current value is then re-set so that the model stays well defined."""
+        for key, buf in list(aliased.items()):
+            scribble(buf, scribbles)
+            fresh = mk(key, 424242 + len(hist["beta"]))
+            lib_call(sm.set_current, key, fresh, copy=True, what="set_current")
+            cur[key] = copy.deepcopy(fresh)
+            del aliased[key]
 
     def verify(where):
         allc = lib_call(sm.get_current, what="get_current()")
@@ -157,21 +172,29 @@ def exec_sm(case):
             mv = copy.deepcopy(vals)
             lib_call(sm.update_current, vals, copy=op["copy"], what="update_current")
             cur.update(mv)
+            for k_ in vals:
+                aliased.pop(k_, None)
             if op["copy"]:
                 scribble(vals, [0])
+            else:
+                aliased.update({k_: v_ for k_, v_ in vals.items() if isinstance(v_, np.ndarray)})
         elif o == "set_none":
             lib_call(sm.set_current, op["key"], None, what="set_current(None)")
             cur[op["key"]] = None
+            aliased.pop(op["key"], None)
         elif o == "iterate":  # what one sampler iteration does: refresh every recorded quantity, then commit
             vals = {k: mk(k, op["val"] + 3 * j) for j, k in enumerate(HIST_KEYS + ["assignments"])}
             mv = copy.deepcopy(vals)
             lib_call(sm.update_current, vals, copy=True, what="update_current")
             cur.update(mv)
+            for k_ in vals:
+                aliased.pop(k_, None)
             scribble(vals, [0])
             lib_call(sm.commit_current_to_history, strict=op["strict"], what="commit_current_to_history")
             for k in HIST_KEYS:
                 if cur[k] is not None:
                     hist[k].append(copy.deepcopy(cur[k]))
+            after_commit()
         elif o == "commit":
             for j, k in enumerate(("beta", "logz", "logl")):
                 if cur[k] is None:
@@ -180,6 +203,7 @@ def exec_sm(case):
             for k in HIST_KEYS:
                 if cur[k] is not None:
                     hist[k].append(copy.deepcopy(cur[k]))
+            after_commit()
         elif o == "get_current":
             got = lib_call(sm.get_current, op["key"], what="get_current")
             exp = cur if op["key"] is None else cur[op["key"]]
@@ -267,8 +291,10 @@ def exec_sm(case):
             dd["_current"]["beta"] = -1.0
         elif o == "from_dict":
             sm = lib_call(StateManager.from_dict, model_dict(), what="from_dict")
+            aliased.clear()
         elif o == "update_from_dict":
             lib_call(sm.update_from_dict, model_dict(), what="update_from_dict")
+            aliased.clear()
         elif o == "save_load":
             with scratch_dir() as td, quiet():
                 p = os.path.join(td, "sub", "state.pkl")
@@ -277,6 +303,7 @@ def exec_sm(case):
                 sm2 = StateManager(d)
                 lib_call(sm2.load_state, p, what="load_state")
                 sm = sm2
+                aliased.clear()
         verify(where)
         if scribbles[0]:
             reread[0] = True
